@@ -7,6 +7,9 @@ pub mod c03;
 pub mod c04;
 pub mod c05;
 pub mod c06;
+pub mod c07;
+pub mod c08;
+pub mod c09;
 pub mod c10;
 pub mod c11;
 pub mod c12;
@@ -15,7 +18,7 @@ pub mod c16;
 pub mod c19;
 pub mod common;
 
-pub const ALL: &[&str] = &["C01", "C02", "C03", "C04", "C05", "C06", "C10", "C11", "C12", "C15", "C16", "C19"];
+pub const ALL: &[&str] = &["C01", "C02", "C03", "C04", "C05", "C06", "C07", "C08", "C09", "C10", "C11", "C12", "C15", "C16", "C19"];
 
 pub fn run(prop: &str, ctx: &mut Ctx) -> bool {
     match prop {
@@ -25,6 +28,9 @@ pub fn run(prop: &str, ctx: &mut Ctx) -> bool {
         "C04" => c04::run(ctx),
         "C05" => c05::run(ctx),
         "C06" => c06::run(ctx),
+        "C07" => c07::run(ctx),
+        "C08" => c08::run(ctx),
+        "C09" => c09::run(ctx),
         "C10" => c10::run(ctx),
         "C11" => c11::run(ctx),
         "C12" => c12::run(ctx),
@@ -44,6 +50,9 @@ pub fn replay(prop: &str, kind: &str, case: &J, rec: &mut Rec) -> Verdict {
         "C04" => c04::replay(kind, case, rec),
         "C05" => c05::replay(kind, case, rec),
         "C06" => c06::replay(kind, case, rec),
+        "C07" => c07::replay(kind, case, rec),
+        "C08" => c08::replay(kind, case, rec),
+        "C09" => c09::replay(kind, case, rec),
         "C10" => c10::replay(kind, case, rec),
         "C11" => c11::replay(kind, case, rec),
         "C12" => c12::replay(kind, case, rec),
@@ -58,6 +67,7 @@ pub fn replay(prop: &str, kind: &str, case: &J, rec: &mut Rec) -> Verdict {
 pub fn probe(args: &[String]) -> i32 {
     match args.first().map(|s| s.as_str()) {
         Some("ladder") => c03::probe_ladder(&args[1..]),
+        Some("filter-ladder") => c09::probe_ladder(&args[1..]),
         _ => {
             eprintln!("unknown probe {args:?}");
             2
